@@ -39,6 +39,37 @@ def select(behs, cost, tier):
     return [b for b in behs if not calls(b)]
 
 
+QUICK_FILES = ["test_noh.py", "test_kenamond.py", "test_cog.py", "test_ehep.py", "test_sdrz.py", "test_heat.py", "test_blake.py",
+               "test_mader.py", "test_dsd.py", "test_ep_piston.py"]
+
+
+def suite_trace(tier):
+    """code -> spec: the repository's own tests run under the recording plugin (harness/pytest_trace.py wraps the
+    construction and the call of every solver at run time; nothing in the repository is edited); one behaviour per test"""
+    import glob, subprocess, sys, exactpack
+    root = os.path.dirname(os.path.dirname(os.path.abspath(exactpack.__file__)))
+    tdir = os.path.join(root, "exactpack", "tests")
+    out = tlc.workdir("C05suite")
+    for f in glob.glob(os.path.join(out, "tr.*")):
+        os.unlink(f)
+    files = [tdir] if tier == "thorough" else [os.path.join(tdir, f) for f in QUICK_FILES if os.path.exists(os.path.join(tdir, f))]
+    env = dict(os.environ, VERIF_TRACE_OUT=os.path.join(out, "tr"), MPLBACKEND="Agg",
+               PYTHONPATH=os.pathsep.join([os.path.dirname(os.path.dirname(os.path.dirname(os.path.abspath(__file__)))), root]))
+    cmd = [sys.executable, "-m", "pytest", "-q", "-p", "no:cacheprovider", "-p", "harness.pytest_trace", ] + \
+          (["-n", "12"] if tier == "thorough" else []) + files
+    r = subprocess.run(cmd, cwd=root, env=env, capture_output=True, text=True, timeout=3600)
+    if r.returncode not in (0, 1):
+        raise RuntimeError("recording run of the repository's tests failed (%d): %s" % (r.returncode, (r.stdout + r.stderr)[-800:]))
+    ev, base = [], 0
+    for f in sorted(glob.glob(os.path.join(out, "tr.*"))):
+        e = json.load(open(f))
+        for x in e:
+            x["tid"] += base
+        base = max(x["tid"] for x in e) + 1
+        ev += e
+    return ev, r.stdout.strip().splitlines()[-1] if r.stdout.strip() else ""
+
+
 def run(tier):
     t0 = time.time()
     verdict = core.Verdict("C05")
@@ -86,11 +117,28 @@ def run(tier):
             verdict.fail({"cls": e["cls"], "clause": clause,
                           "cfg": {k: e.get(k) for k in ("container", "n", "order", "mode")}},
                          {"event": e, "clause": clause})
+    # ---- the repository's own tests as recorded behaviours
+    sev, summary = suite_trace(tier)
+    if not sev:
+        raise RuntimeError("the recording plugin produced no events")
+    stv = core.validate_trace("TraceSession", "TraceSession.cfg", sev, "C05suite")
+    if not stv["accepted"]:
+        consumed = stv["depth"] - 1
+        bad = sev[consumed] if 0 <= consumed < len(sev) else None
+        verdict.fail({"cls": bad["cls"] if bad else "?", "clause": "API.reject", "cfg": {"source": "suite"}}, {"reject_at": consumed, "event": bad})
+    for fl in stv["failed"]:
+        e = sev[fl["i"] - 1]
+        for clause in fl["failed"]:
+            verdict.fail({"cls": e["cls"], "clause": clause, "cfg": {"source": "suite", "container": e.get("container"), "n": e.get("n")}},
+                         {"event": e, "clause": clause, "source": "repository test-suite"})
     rc = verdict.finish()
     calls = [e for e in events if e["op"] == "Call"]
     nontriv = {(e["cls"], e["op"], e.get("container"), e.get("n"), e.get("order"), e.get("mode")) for e in events if e["op"] != "Reset"}
     cov = {"states": gres["distinct"] + tv["states"], "transitions": gres["states"] + tv["generated"],
-           "traces_validated_against_impl": len({e["tid"] for e in events}),
+           "traces_validated_against_impl": len({e["tid"] for e in events}) + len({e["tid"] for e in sev}),
+           "suite": {"tests_with_solver_events": len({e["tid"] for e in sev}), "constructions": sum(1 for e in sev if e["op"] == "Construct"),
+                     "calls": sum(1 for e in sev if e["op"] == "Call"), "classes_called": len({e["cls"] for e in sev if e["op"] == "Call"}),
+                     "pytest_summary": summary[:200]},
            "samples": [{"behaviour": behs[len(behs) // 2], "events": [e for e in events if e["op"] != "Reset"][:3]}],
            "evaluations": len([e for e in events if e["op"] != "Reset"]),
            "distinct_nontrivial": len(nontriv),
